@@ -407,7 +407,8 @@ fn cmd_serde(args: &[String]) {
             match w.as_slice() {
                 ["seed", x] => seed = x.parse().unwrap_or(0),
                 ["index", x] => index = x.parse().unwrap_or(0),
-                ["phase", d, k] => only = Some((*d == "ser", k.parse().unwrap_or(0))),
+                // "de strict" / "de wrong-input" / "all 0": replay the whole case for that value
+                ["phase", d, k] => only = k.parse().ok().filter(|_| *d != "all").map(|k| (*d == "ser", k)),
                 _ => {}
             }
         }
@@ -444,6 +445,8 @@ fn cmd_serde(args: &[String]) {
     ));
     j.push_str("\"by_type\":[");
     j.push_str(&st.by_type.iter().map(|x| x.to_string()).collect::<Vec<_>>().join(","));
+    j.push_str(&format!("],\"wrong_input_cases\":{},\"wrong_input_rejected\":{},\"strict_format_cases\":{},\"entry_points\":[", st.wrong_input_cases, st.wrong_input_rejected, st.strict_cases));
+    j.push_str(&st.entry_points.iter().map(|s| jstr(s)).collect::<Vec<_>>().join(","));
     j.push_str("],\"samples\":[");
     j.push_str(&st.samples.iter().map(|s| jstr(s)).collect::<Vec<_>>().join(","));
     j.push_str("]}");
